@@ -278,6 +278,21 @@ func expandC10(base Scenario, res *Result, tier string) []Scenario {
 		v.SchedSeed = r.Uint64()
 		out = append(out, &v)
 	}
+	// C06 during open: the connection is lost at byte k of the login dialogue
+	for k := 0; k < l; k += 2 * stride {
+		for _, kind := range []string{"eof", "readerr"} {
+			v := *b
+			v.Ops = append([]OpSpec(nil), b.Ops...)
+			if kind == "eof" {
+				v.F.EOFAt = k
+			} else {
+				v.F.ErrAt = k
+			}
+			v.Class = b.Auth + "/" + kind
+			v.SchedSeed = r.Uint64()
+			out = append(out, &v)
+		}
+	}
 
 	return out
 }
@@ -350,6 +365,32 @@ func runC10(env *Env, s Scenario) {
 		if counts[kind] > 2 {
 			env.Fail("credential-sent-more-than-twice", kind, "the %s credential was sent %d times", kind, counts[kind])
 		}
+	}
+	if sc.F.EOFAt >= 0 || sc.F.ErrAt >= 0 {
+		// connection lost during the login dialogue (C06 "during open"): Open fails promptly
+		// (it starts closing the channel within a few read delays of the loss), never hangs, and
+		// the transport is closed
+		f := sr.Tr.Faults()
+		if f["eof"]+f["readerr"] == 0 || open.End < sr.Tr.LostAt {
+			env.Probe("loss-after-login-complete")
+
+			return
+		}
+		env.Probe("loss-during-login")
+		rd := Micro(sc.ReadDelayUS)
+		if open.Err == nil {
+			env.Fail("open-succeeds-after-loss", "", "C06: the connection was lost at %v during login but Open returned success", sr.Tr.LostAt)
+
+			return
+		}
+		if closeBegin >= 0 && closeBegin > sr.Tr.LostAt+6*rd+sc.Net.LatMax {
+			env.Fail("loss-not-reported-promptly", "open", "C06: connection lost at %v during login, Open gave up only at %v (%v)", sr.Tr.LostAt, closeBegin, open.Err)
+		}
+		if sr.Tr.CloseCount() == 0 {
+			env.Fail("transport-left-open", "", "Open failed (%v) but the transport was not closed", open.Err)
+		}
+
+		return
 	}
 	if sc.F.StallAt >= 0 {
 		// silence somewhere in the dialogue: a timeout error (or success if the stall came after
